@@ -383,6 +383,12 @@ fn split_at_scalar(d: &[u8]) -> (Scalar, &[u8]) {
             result = _mm_or_si128(result, t10);
             let t11 = _mm_cmpeq_epi8(input, _mm_set1_epi8(93));
             result = _mm_or_si128(result, t11);
+            let t12 = _mm_cmpeq_epi8(input, _mm_set1_epi8(33));
+            result = _mm_or_si128(result, t12);
+            let t13 = _mm_cmpeq_epi8(input, _mm_set1_epi8(11));
+            result = _mm_or_si128(result, t13);
+            let t14 = _mm_cmpeq_epi8(input, _mm_set1_epi8(12));
+            result = _mm_or_si128(result, t14);
 
             let found_mask = _mm_movemask_epi8(result);
             if found_mask != 0 {
